@@ -722,6 +722,16 @@ Theorem duplicates_rejected db e :
   In EDuplicate (spec_errors G db e).
 Proof. exact (duplicates_rejected_T G db e). Qed.
 
+(* KNOWN FINDING: the constructor does not apply the panel rule to formulas given in a dictionary *)
+Theorem var_outside_trajectory_dict_refuted :
+  exists db e, d_panel db = true /\ In "x1"%string (check_panel G e) /\
+               spec_errors G db e <> [] /\ spec_errors_dict G db e = [].
+Proof.
+  exists (mkDb ["x1"%string; "id"%string] [] true),
+         (EBin Times (EVar "x1") (EUn PanelTraj (EBin Times (EBeta "b" false) (EVar "x1")))).
+  vm_compute. repeat split; auto. discriminate.
+Qed.
+
 Theorem audit_reports_only_faults db e x :
   In x (audit G db e) -> exists s, In s (subterms e) /\ In x (own_errors G db (hd_of s) (kids_of s)).
 Proof. exact (audit_sound G db e x). Qed.
@@ -868,6 +878,24 @@ Section Missing.
       apply (strict_frame_nan h l r (plug C (EVar x)) x en Hf Hsf); [|exact Hx].
       intros en' Hx'. exact (IH HC HsC en' Hx').
   Qed.
+
+  (* KNOWN FINDING: the compiled engine evaluates a linear utility through getAllLiteralValues, which
+     catches the exception of a variable holding the missing-data code and drops the term: the
+     engine's rule for this node is [xlinutil_engine], not the strict [xlinutil] *)
+  Fixpoint xlinutil_engine (l : list xval) : xval :=
+    match l with
+    | [] => XR 0
+    | b :: v :: r =>
+        match xlinutil_engine r with
+        | XR s => match b, v with XR x, XR y => XR (x * y + s) | _, _ => XR s end
+        | _ => XNaN
+        end
+    | _ => XNaN
+    end.
+
+  Theorem linear_utility_swallows_refuted :
+    exists b, xlinutil [XR b; XNaN] = XNaN /\ xlinutil_engine [XR b; XNaN] = XR 0.
+  Proof. exists 1%R. split; reflexivity. Qed.
 
   (* ---------------------------------------------------------------- And / Or *)
   Theorem and_second_unread a b en :
